@@ -99,6 +99,12 @@ def schedules(fam):
         out.append(SC(fam, "dropwhilepending", {"b": Mo(r1=R("c")), "c": Mo(z=P("1"))},
                       [opn("c1"), sub("c1", "b"), Q, sub("c1", "c"), conn("c1"), ev("b", "change", k="r1", val=P("0")), cache("b"), conn("c1"),
                        Q, ev("c", "custom"), Q]))
+        # a sent parent is released while another parent keeps the child; then the last delivered parent is released
+        # while a third parent is still loading: its response must carry the child again
+        out.append(SC(fam, "staleindirectsent", {"p1": Mo(m=R("m")), "p2": Mo(m=R("m")), "p3": Mo(m=R("m"), x=R("x")), "m": Mo(z=P("1")), "x": Mo(w=P("1"))},
+                      [opn("c1"), sub("c1", "p1"), sub("c1", "p2"), Q, unsub("c1", "p1"), Q,
+                       sub("c1", "p3"), conn("c1"), cache("p3"), reply("access", "p3"), reply("get", "p3"), cache("p3"), cache("p3"), conn("c1"), conn("c1"),
+                       unsub("c1", "p2"), conn("c1"), Q, ev("m", "custom"), Q]))
     if fam == "gc":
         # the per-resource limit of 256 direct subscriptions: the request beyond it fails and leaves the count unchanged
         sb = dict(sub("c1", "t"), settle=True)
